@@ -112,6 +112,8 @@ def schema_dump(lib, I, schema_obj, cls, args, kwargs, node):
     if isinstance(obj, Obj) and obj.typ.kind == "obj" and I.w.class_by_name(tname(obj.typ)) is not None:
         from . import mmjson
         r = mmjson.dump_object(lib, I, schema_obj, cls, obj, fields, node)
+        if isinstance(r, Sym):
+            return r
         if r is not MISSING:
             data = r
         else:
